@@ -418,6 +418,9 @@ func (e *Explorer) runPath(root func()) (out PathOutcome) {
 				out = PathOutcome{"panic", r.msg + " @" + r.pos}
 			case pathAbort:
 				out = PathOutcome{"abort", r.why}
+				if os.Getenv("SYMGO_TRACE_ABORT") != "" {
+					fmt.Fprintf(os.Stderr, "ABORT %s\n%s\n", r.why, debug.Stack())
+				}
 			case unsupported:
 				out = PathOutcome{"unsupported", string(r)}
 			case mergeFail:
@@ -467,6 +470,7 @@ func (e *Explorer) Explore(root func(), onPath func(PathOutcome)) {
 		e.bseq = 0
 		e.rangeFacts = nil
 		m.varSeq = map[string]int{}
+		m.apxSeq = 0
 		out := e.runPath(root)
 		e.Paths++
 		if out.Kind == "abort" {
@@ -1116,7 +1120,7 @@ func (g *merger) merge(guards []*Term, vals []value) value {
 		return vals[0]
 	}
 	switch v0 := vals[0].(type) {
-	case int64, bool, *Term, string, *SymStr, float64, *FRat, *FTab, FUnknown:
+	case int64, bool, *Term, string, *SymStr, float64, *FRat, *FTab, *FApx, FUnknown:
 		r := vals[len(vals)-1]
 		for i := len(vals) - 2; i >= 0; i-- {
 			r = m.iteVal(guards[i], vals[i], r)
@@ -1231,6 +1235,9 @@ func identical(a, b value) bool {
 	case *FTab:
 		y, ok := b.(*FTab)
 		return ok && x == y
+	case *FApx:
+		y, ok := b.(*FApx)
+		return ok && x.num == y.num && x.den == y.den && x.err == y.err
 	case nil:
 		return b == nil
 	case Iface:
